@@ -77,6 +77,12 @@ def gen_controls(rng, ncv):
         out.append({"type": t, "K": rng.choice([2.0, 3.0, 4.0, 5.0]), "notional": rng.choice(CTRL_NOTIONALS)})
     if ncv >= 2 and rng.random() < 0.5:      # make sure call + put pairs are frequent
         out[0]["type"], out[1]["type"] = "call", "put"
+    if ncv == 3 and rng.random() < 0.5:      # COLLINEAR set: forward = call(K) - put(K) + K, Sigma_X is singular
+        K = rng.choice([2.0, 3.0, 4.0])
+        for c, t in zip(out, ("fwd", "call", "put")):
+            c["type"], c["K"] = t, K
+    if ncv == 2 and rng.random() < 0.15:     # two copies of one control (different notionals): rank one
+        out[1]["type"], out[1]["K"] = out[0]["type"], out[0]["K"]
     return out
 
 
@@ -91,6 +97,7 @@ def gen_spec(rng, tier):
             "df": rng.choice([1.0, 0.5, 0.25, 0.75]), "notional": rng.choice(PROD_NOTIONALS),
             "controls": gen_controls(rng, ncv),
             "price_mode": rng.choice(["arbitrary", "arbitrary", "sample-mean"]),
+            "spot_stats": rng.random() < 0.3,          # activate_spot_statistics (engine-level: the first pricing of a sequence decides)
             "scalar_prices": d == 1 and rng.random() < 0.6,
             "prices_raw": [[rng.randrange(0, 64) / 8.0 for _ in range(d)] for _ in range(ncv)]}
 
@@ -171,7 +178,8 @@ def run_sequence(specs):
         cv = make_control_variates([control_fun(c, d0) for c in first["controls"]], prices,
                                    notionals=[c["notional"] for c in first["controls"]])
     proc = ScriptedProcess([x for s in specs for x in s["paths"]], df=first["df"], dimension=1)
-    eng = Engine(ConfigurationStandard(mc_paths=first["n"], nb_of_processes=1, seed=7, control_variates=cv), proc)
+    eng = Engine(ConfigurationStandard(mc_paths=first["n"], nb_of_processes=1, seed=7, control_variates=cv,
+                                       activate_spot_statistics=bool(first.get("spot_stats"))), proc)
     out = []
     for spec in specs:
         if ncv:
@@ -191,6 +199,9 @@ def run_sequence(specs):
                    "price_raw": np.atleast_1d(st.price(no_control_variates=True)).astype(float),
                    "err_raw": np.atleast_1d(st.mc_stddev(no_control_variates=True)).astype(float),
                    "price": np.atleast_1d(st.price()).astype(float), "err": np.atleast_1d(st.mc_stddev()).astype(float)}
+            obs["variance_raw"] = np.atleast_1d(st.get_variance(no_control_variates=True)).astype(float)
+            if first.get("spot_stats"):
+                obs["spot"] = np.array(st._spot_underlying_statistics.stats)         # (n, 1)
             if ncv:
                 obs["X"] = np.array(st._control_variates_statistics.stats)          # (n, ncv, d)
                 obs["adj"] = np.array(st._payoff_statistics_with_cv.stats)          # (n, d)
@@ -280,6 +291,18 @@ def oracle(spec, obs):
                 if d >= 2 and _close(rep * rep * d, e2, TOL9, sc * sc):
                     det["finding"] = "F-C07-1"
                 out.append(("mc_stddev() is not the unbiased sample standard deviation / sqrt(number of paths), per component", det))
+    if "spot" in obs and len(got) == n:
+        sp = [Fraction(float(v)) for v in obs["spot"][:, 0]] if obs["spot"].ndim == 2 and obs["spot"].shape[0] == n else None
+        if sp != [Fraction(x) for x in spec["paths"]]:
+            out.append(("spot statistics on: the stored spot values are not the simulated underlying values, one per path", {"stored": None if sp is None else [float(v) for v in sp][:8]}))
+    if n >= 2 and len(got) == n:
+        for j in range(d):
+            m = _mean(cols[j])
+            var = sum((x - m) ** 2 for x in cols[j]) / (n - 1)
+            rep = float(obs["variance_raw"][j]) if len(obs["variance_raw"]) == d else float("nan")
+            if not _close(rep, var, TOL9, sc * sc):
+                out.append(("get_variance() is not the unbiased sample variance of the payoff", {"component": j, "reported": rep, "expected": float(var), "mean": float(m)}))
+                break
     if ncv and len(got) == n:
         X, adj = obs["X"], obs["adj"]
         pr = spec["prices_used"]
@@ -295,22 +318,42 @@ def oracle(spec, obs):
             spec.setdefault("_sigma_neg", 0)
             spec["_sigma_neg"] += any(v < 0 for r in S for v in r)
             # the (repaired) guard: a control whose variance vanishes relative to its second moment -> b = 0
+            p = [Fraction(pr[k][j]) for k in range(ncv)]
+            tol6 = Fraction(1, 10 ** 6)
+            adj_ex = [Fraction(float(adj[i, j])) for i in range(n)]
+            var_y = _cov(cols[j], cols[j])
+            # ALWAYS (no skip): the adjusted sample never has more variance than the raw one, and price() is its mean
+            va, vy = _cov(adj_ex, adj_ex), var_y
+            if va > vy * (1 + Fraction(1, 10 ** 9)) + Fraction(1, 10 ** 12) * sc * sc:
+                out.append(("sample variance of the control-variate adjusted payoff exceeds the raw one",
+                            {"component": j, "var_adj": float(va), "var_raw": float(vy), "ratio": float(va / vy) if vy else None,
+                             "Sigma_X": [[float(v) for v in r] for r in S]}))
+            if not _close(obs["price"][j], _mean(adj_ex), TOL9, sc):
+                out.append(("price() with control variates is not the mean of the adjusted sample", {"component": j}))
+            # the (repaired) guard: a control whose variance vanishes relative to its second moment -> b = 0
             if any(S[a][a] <= Fraction(1, 10 ** 24) * _mean([x * x for x in xcols[a]]) for a in range(ncv)):
                 b = [Fraction(0)] * ncv
                 spec["_cv_guard"] = spec.get("_cv_guard", 0) + 1
+                well = True
             else:
+                # b-free form of the normal equations: the adjusted sample is uncorrelated with every control (whatever the rank of Sigma_X)
+                for k in range(ncv):
+                    c = _cov(adj_ex, xcols[k])
+                    if c * c > Fraction(1, 10 ** 12) * S[k][k] * var_y + Fraction(1, 10 ** 30) * sc ** 4:
+                        out.append(("control-variate adjusted sample is still correlated with a control: b* does not solve the normal equations Sigma_X b = Sigma_XY",
+                                    {"component": j, "control": k, "cov_adj_control": float(c), "var_control": float(S[k][k]), "var_raw": float(var_y)}))
+                        break
                 diag = Fraction(1)
                 for a in range(ncv):
                     diag *= S[a][a]
-                if abs(_det(S)) < Fraction(1, 1000) * abs(diag):
-                    spec.setdefault("_cv_skipped", 0)
-                    spec["_cv_skipped"] += 1
-                    continue
-                b = _solve(S, sxy)
-            p = [Fraction(pr[k][j]) for k in range(ncv)]
+                well = abs(_det(S)) >= Fraction(1, 1000) * abs(diag)
+                b = _solve(S, sxy) if well else None
+            if not well or b is None:      # collinear / nearly collinear controls: b* is not unique, the rows are not compared with one particular solution
+                spec.setdefault("_cv_skipped", 0)
+                spec["_cv_skipped"] += 1
+                continue
             want_adj = [cols[j][i] - sum(b[k] * (xs[i][k] - p[k]) for k in range(ncv)) for i in range(n)]
             spec["_cv_checked"] += 1
-            tol6 = Fraction(1, 10 ** 6)
             moved = any(b[k] != 0 and xs[i][k] != p[k] for i in range(n) for k in range(ncv))
             if moved and any(v != 0 for v in b) and all(float(adj[i, j]) == float(rows[i, j]) for i in range(n)) \
                     and any(not _close(adj[i, j], want_adj[i], tol6, sc) for i in range(n)):
@@ -323,15 +366,9 @@ def oracle(spec, obs):
                             {"component": j, "stored": [float(v) for v in adj[:, j]][:8], "expected": [float(v) for v in want_adj][:8],
                              "b_star": [float(v) for v in b], "prices": [float(v) for v in p]}))
                 continue
-            if not _close(obs["price"][j], _mean(want_adj), tol6, sc):
-                out.append(("price() with control variates is not the mean of the adjusted sample", {"component": j}))
             if spec["price_mode"] == "sample-mean" and not _close(obs["price"][j], _mean(cols[j]), tol6, sc):
                 out.append(("controls' sample mean equals their given price but the control-variate price differs from the raw mean",
                             {"component": j, "with_cv": float(obs["price"][j]), "raw": float(_mean(cols[j]))}))
-            va = float(np.var(adj[:, j]))
-            vy = float(np.var(rows[:, j]))
-            if va > vy * (1 + 1e-9) + 1e-12 * float(sc * sc):
-                out.append(("sample variance of the control-variate adjusted payoff exceeds the raw one", {"component": j, "var_adj": va, "var_raw": vy}))
     return out
 
 
@@ -386,6 +423,7 @@ def correspond(res):
                 res.bump("repricing_step", spec["seq_step"] + (", other product" if (spec["strikes"], spec["notional"], spec["d"]) !=
                                                                (specs[k - 1]["strikes"], specs[k - 1]["notional"], specs[k - 1]["d"]) else ", same product"))
             res.bump("price_mode", spec["price_mode"] if ncv else "no controls")
+            res.bump("spot_statistics", "on" if specs[0].get("spot_stats") else "off")
             res.bump("prices_form", "none" if not ncv else ("scalars" if spec["scalar_prices"] else "arrays"))
             for what, det in oracle(spec, obs):
                 res.violation(what, _seq_payload(specs[:k + 1], k, **det) if len(specs) > 1 else _payload(spec, **det))
@@ -409,6 +447,9 @@ def correspond(res):
                     cv_cases.append(f"({natlit(ncv)}, {lst([qlit(spec['prices_used'][c][j] / lx[c]) for c in range(ncv)])}, {xs}, "
                                     f"{lst([qlit(v / ly) for v in obs['rows'][:, j]])}, {lst([qlit(v / ly) for v in obs['adj'][:, j]])})")
         eng_cases.append(lst([_coq_case(sp, ob) for sp, ob in zip(specs, observations)]))
+    for name, cs in (("engine", eng_cases), ("cv", cv_cases)):
+        if not cs:
+            res.broke(f"correspondence {name}", "the group has no case: nothing would be compared (generator or driver problem)")
     bad, nsh = parallel_coq_bad(PROP, "engine", HEADER, "list seq_case", "corr_seq tol", eng_cases,
                                 shard=40 if res.tier == "quick" else 100, timeout=900, jobs=12)
     res.case_lemmas += nsh
@@ -439,7 +480,7 @@ def search(res):
                 return
 
 
-SPEC_KEYS = ("kind", "n", "d", "ncv", "vector_form", "strikes", "paths", "df", "notional", "controls", "price_mode", "scalar_prices",
+SPEC_KEYS = ("kind", "n", "d", "ncv", "vector_form", "strikes", "paths", "df", "notional", "controls", "price_mode", "scalar_prices", "spot_stats",
              "prices_raw", "seq_step")
 
 
